@@ -7,6 +7,25 @@ PKGS = {
 }
 
 PROPS = {
+    "C11": {
+        "harnesses": [
+            {"pkg": "bt", "name": "VH_C11_Accounting", "opts": {"int": True}, "quick": {"params": {"IN": 1, "OUT": 2, "S": 2, "DEN": 0}}, "thorough": {"params": {"IN": 2, "OUT": 3, "S": 3, "DEN": 1}}},
+            {"pkg": "bt", "name": "VH_C11_Estimate", "opts": {"int": True}, "quick": {"params": {"IN": 2, "SIGVAR": 2, "DEN": 0}}, "thorough": {"params": {"IN": 3, "SIGVAR": 40, "DEN": 1}}},
+        ],
+        "assumptions": [],
+    },
+    "C12": {
+        "harnesses": [
+            {"pkg": "bt", "name": "VH_C12_Fund", "opts": {"int": True}, "quick": {"params": {"CALLS": 2, "DEN": 0}}, "thorough": {"params": {"CALLS": 3, "DEN": 1}}},
+        ],
+        "assumptions": [],
+    },
+    "C10": {
+        "harnesses": [
+            {"pkg": "bt", "name": "VH_C10_Change", "opts": {"int": True}, "quick": {"params": {"IN": 1, "CSBIG": 0, "BOUNDARY": 1, "DEN": 0}}, "thorough": {"params": {"IN": 2, "CSBIG": 1, "BOUNDARY": 1, "DEN": 1}}},
+        ],
+        "assumptions": [],
+    },
     "C13": {
         "harnesses": [
             {"pkg": "bscript", "name": "VH_C13_Parts", "quick": {"params": {"P": 2, "BIG": 0}}, "thorough": {"params": {"P": 3, "BIG": 1}}},
